@@ -142,7 +142,7 @@ theorem iter_cases (E : Enc σ) (cap : Nat) (r r1 : Reader σ) (h : r.WF) (hf : 
       ∃ r3 : Reader σ, r3.WF ∧ r3.window = r1.window.drop st.2.consumed ∧ r3.enc = st.1 ∧
         r3.elog = ⟨r1.nextOp, r1.window, cap, st.2, E.hasMore st.1, E.isFinished st.1⟩ :: r1.elog ∧
         r3.src = r1.src ∧ r3.eof = r1.eof ∧ r3.errInvalid = r1.errInvalid ∧
-        r3.buf.length = r1.buf.length ∧ r3.total = r1.total ∧
+        (r3.buf.length = r1.buf.length ∧ (r3.window = [] ∨ r3.inputLen = r1.inputLen)) ∧ r3.total = r1.total ∧
         Reader.iter E cap r = iterTail E st r3) := by
   have wf1 : r1.WF := by have := (Reader.fill_spec r h).1; rw [hf] at this; exact this
   have hw := Reader.input_eq_window r1 wf1
@@ -161,18 +161,22 @@ theorem iter_cases (E : Enc σ) (cap : Nat) (r r1 : Reader σ) (h : r.WF) (hf : 
       rw [hst']; exact hs.1
     obtain ⟨a1, a2, a3, a4, a5, a6, a7, a8, a9, a10, a11⟩ := hspec hc'
     obtain ⟨r', c1, c2, c3, c4, c5, c6, c7, c8, c9, c10, c11⟩ := copyToFront_spec (r1.afterStep E cap) a1
+    rw [hst'] at a2 a3 a4 a10
     have key : ∃ r3 : Reader σ,
         (if r1.inputLen - r1.inputOffset - st.2.consumed = 0
           then (r1.afterStep E cap).copyToFront else some (r1.afterStep E cap)) = some r3 ∧
         r3.WF ∧ r3.window = (r1.afterStep E cap).window ∧ r3.buf.length = (r1.afterStep E cap).buf.length ∧
         r3.enc = (r1.afterStep E cap).enc ∧ r3.elog = (r1.afterStep E cap).elog ∧ r3.src = (r1.afterStep E cap).src ∧
-        r3.eof = (r1.afterStep E cap).eof ∧ r3.errInvalid = (r1.afterStep E cap).errInvalid := by
+        r3.eof = (r1.afterStep E cap).eof ∧ r3.errInvalid = (r1.afterStep E cap).errInvalid ∧
+        (r3.window = [] ∨ r3.inputLen = r1.inputLen) := by
       split
-      · exact ⟨r', c1, c2, c3, c5, c6, c7, c8, c9, c10⟩
-      · exact ⟨_, rfl, a1, rfl, rfl, rfl, rfl, rfl, rfl, rfl⟩
-    obtain ⟨r3, k0, k1, k2, k3, k4, k5, k6, k7, k8⟩ := key
-    rw [hst'] at a2 a3 a4 a10
-    refine ⟨r3, k1, by rw [k2, a2], by rw [k4, a3], ?_, by rw [k6, a5], by rw [k7, a6], by rw [k8, a7], by rw [k3, a8], ?_, ?_⟩
+      · next hz =>
+        refine ⟨r', c1, c2, c3, c5, c6, c7, c8, c9, c10, Or.inl ?_⟩
+        rw [c3, a2]
+        exact List.eq_nil_of_length_eq_zero (by rw [List.length_drop, hwl]; omega)
+      · exact ⟨_, rfl, a1, rfl, rfl, rfl, rfl, rfl, rfl, rfl, Or.inr a9⟩
+    obtain ⟨r3, k0, k1, k2, k3, k4, k5, k6, k7, k8, k9'⟩ := key
+    refine ⟨r3, k1, by rw [k2, a2], by rw [k4, a3], ?_, by rw [k6, a5], by rw [k7, a6], by rw [k8, a7], ⟨by rw [k3, a8], k9'⟩, ?_, ?_⟩
     · rw [k5, a4]; rfl
     · simp only [Reader.total, k5, k2, k6]; exact a11
     · rw [k0]
@@ -216,7 +220,7 @@ theorem iter_cont (E : Enc σ) (cap : Nat) (r r' : Reader σ) (h : r.WF) (hi : R
             · next hp =>
               simp only [RIter.cont.injEq] at hi
               subst hi
-              refine ⟨r1, _, rfl, rfl, s1, ?_, by simpa using hok, by simpa using hfin, k1, k2, k3, k4, k5, k6, k7, k8, k9⟩
+              refine ⟨r1, _, rfl, rfl, s1, ?_, by simpa using hok, by simpa using hfin, k1, k2, k3, k4, k5, k6, k7, k8.1, k9⟩
               exact List.eq_nil_of_length_eq_zero (by simpa using hp)
 
 theorem iter_cont_measure (E : Enc σ) (ops : Op → Prop) (rank : σ → Nat) (hp : EncProgress E ops rank)
@@ -441,4 +445,114 @@ theorem readLoop_no_panic (E : Enc σ) (hs : EncSane E) (cap : Nat) : ∀ (fuel 
               · split at hi
                 · simp at hi; rw [← hi.2]; simp
                 · simp at hi
+/-! ### the wrapped reader is only asked when the window is empty -/
+
+/-- the reader's own buffer holds a COMPLETE load (or the source is at EOF, or nothing is left in
+it): the state in which the refill loop does not touch the wrapped reader unless the window is empty -/
+def Reader.Full (r : Reader σ) : Prop := r.eof = true ∨ r.inputLen = r.buf.length ∨ r.inputLen = r.inputOffset
+
+theorem Reader.new_Full (b : Nat) (e : σ) (src : Source) : (Reader.new b e src).Full := Or.inr (Or.inr rfl)
+
+/-- `read` never tops up a partially consumed buffer load: while bytes are waiting in the window the
+refill loop makes no call on the wrapped reader and changes nothing but the access counter — so what
+is offered to the encoder is always a suffix of one complete load of the own buffer (or of the last,
+shorter, load before EOF), whatever sizes the caller reads with -/
+theorem fill_no_top_up (r : Reader σ) (hwf : r.WF) (hF : r.Full) (hw : r.window ≠ []) :
+    r.fill.2 = none ∧ r.fill.1.src = r.src ∧ r.fill.1.buf = r.buf ∧ r.fill.1.inputLen = r.inputLen ∧
+    r.fill.1.inputOffset = r.inputOffset ∧ r.fill.1.eof = r.eof ∧ r.fill.1.window = r.window := by
+  have hcond : ¬ (r.inputLen < r.buf.length ∧ r.eof = false) := by
+    rcases hF with h | h | h
+    · intro hh; rw [h] at hh; exact absurd hh.2 (by simp)
+    · intro hh; omega
+    · exfalso
+      apply hw
+      have := Reader.window_length r hwf
+      exact List.eq_nil_of_length_eq_zero (by rw [this, h]; simp)
+  have hfb : fillBuf r.buf r.inputLen r.eof r.src 0 = ⟨r.buf, r.inputLen, r.eof, r.src, none, 0⟩ := by
+    rw [fillBuf]; rw [dif_neg hcond]
+  unfold Reader.fill
+  simp [hfb, Reader.window]
+
+/-- every iteration whose refill went through leaves a complete load behind -/
+theorem fill_ok_Full (r : Reader σ) (hwf : r.WF) (h : r.fill.2 = none) : r.fill.1.Full := by
+  obtain ⟨wf1, _, f3, _, _, _, _, _, _, f10, _⟩ := Reader.fill_spec r hwf
+  have := f10 h
+  by_cases he : r.fill.1.eof = true
+  · exact Or.inl he
+  · right; left
+    have he' : r.fill.1.eof = false := by simpa using he
+    have h1 : ¬ r.fill.1.inputLen < r.buf.length := fun hh => this ⟨hh, he'⟩
+    have h2 := wf1.2
+    rw [f3] at h2 ⊢
+    omega
+
+/-- `copy_to_front` as `read` uses it — only once the window is empty — keeps the buffer "full or
+empty"; called with bytes still waiting (as the pub method allows) it compacts them to the front and
+the next refill tops the load up: that is why `read` guards the call with `avail_in == 0` -/
+theorem copyToFront_Full (r r' : Reader σ) (hF : r.Full) (hempty : r.inputLen = r.inputOffset)
+    (h : r.copyToFront = some r') : r'.Full := by
+  unfold Reader.copyToFront at h
+  split at h
+  · simp at h
+  · simp only at h
+    split at h
+    · simp only [Option.some.injEq] at h; subst h; exact Or.inr (Or.inr rfl)
+    · split at h
+      · split at h
+        · simp at h
+        · simp only [Option.some.injEq] at h; subst h
+          right; right; simp [hempty]
+      · simp only [Option.some.injEq] at h; subst h; exact hF
+
+/-- after every successful `read` the own buffer is full-or-empty again: together with
+`fill_no_top_up`, in any history of successful reads — with ANY caller read sizes — the wrapped reader
+is only called when the window is empty, and every encoder input is a suffix of one buffer load -/
+theorem readLoop_Full (E : Enc σ) (cap : Nat) : ∀ (fuel : Nat) (r r' : Reader σ) (bs : Bytes), r.WF →
+    Reader.readLoop E cap fuel r = (r', .done (.ok bs)) → r'.Full := by
+  intro fuel
+  induction fuel with
+  | zero => intro r r' bs _ h; simp [Reader.readLoop] at h
+  | succ fuel ih =>
+    intro r r' bs hwf h
+    simp only [Reader.readLoop] at h
+    split at h
+    · next r2 o hi =>
+      simp only [Prod.mk.injEq] at h
+      obtain ⟨h1, h2⟩ := h
+      subst h1 h2
+      cases hfl : r.fill with
+      | mk r1 oo =>
+        cases oo with
+        | some c => rw [iter_fill_err E cap r r1 c hfl] at hi; simp at hi
+        | none =>
+          have hF1 : r1.Full := by have := fill_ok_Full r hwf (by rw [hfl]); rw [hfl] at this; exact this
+          rcases iter_cases E cap r r1 hwf hfl _ rfl with ⟨_, r2', h2⟩ | ⟨s1, s2, r3, k1, k2, k3, k4, k5, k6, k7, k8, k9, k10⟩
+          · rw [h2] at hi; simp at hi
+          · have hF3 : r3.Full := by
+              rcases k8.2 with hw0 | hlen
+              · right; right
+                have := Reader.window_length r3 k1
+                rw [hw0] at this; simp at this
+                have := k1.1; omega
+              · rcases hF1 with h1 | h1 | h1
+                · exact Or.inl (by rw [k6]; exact h1)
+                · exact Or.inr (Or.inl (by rw [hlen, k8.1]; exact h1))
+                · -- the load was already used up: the window of r1 is empty, so is r3's
+                  right; right
+                  have hw1 := Reader.window_length r1 (by have := (Reader.fill_spec r hwf).1; rw [hfl] at this; exact this)
+                  have hw3 := Reader.window_length r3 k1
+                  rw [k2, List.length_drop, hw1, h1] at hw3
+                  have := k1.1; omega
+            rw [k10] at hi
+            unfold iterTail at hi
+            split at hi
+            · split at hi <;> simp at hi
+            · split at hi
+              · simp only [RIter.stop.injEq] at hi; rw [← hi.1]; exact hF3
+              · split at hi
+                · simp only [RIter.stop.injEq] at hi; rw [← hi.1]; exact hF3
+                · simp at hi
+    · next r2 hi =>
+      obtain ⟨r1, st, hfl, hst, s1, s2, s3, s4, k1, _⟩ := iter_cont E cap r r2 hwf hi
+      exact ih r2 r' bs k1 h
 end BV.Adapters
